@@ -69,6 +69,9 @@ type RunRes struct {
 	Counters []int64 // per programs[Prog].P.CountPositions()
 	NoScope  int64
 
+	// FreshMachines (diamond program on the cluster): machines that ran tasks of
+	// c without having run a task of a or b.
+	FreshMachines int `json:",omitempty"`
 	// Placement (stress programs on the cluster): machine of every producer shard.
 	Placement string `json:",omitempty"`
 
@@ -130,6 +133,7 @@ type session struct {
 }
 
 type placedRun struct {
+	Inv             uint64
 	Op              string
 	Shard, NumShard int
 	Host            string
@@ -149,7 +153,7 @@ func openSession(cfg Config) *session {
 				var req struct{ Name exec.TaskName }
 				if gob.NewDecoder(bytes.NewReader(c.Body)).Decode(&req) == nil {
 					ss.mu.Lock()
-					ss.placed = append(ss.placed, placedRun{req.Name.Op, req.Name.Shard, req.Name.NumShard, c.Host})
+					ss.placed = append(ss.placed, placedRun{req.Name.InvIndex, req.Name.Op, req.Name.Shard, req.Name.NumShard, c.Host})
 					ss.mu.Unlock()
 				}
 			}
@@ -309,6 +313,10 @@ func attempt(pr prog, p refeval.Program, cfg Config, res *RunRes, ss *session) {
 // through emit.
 func runSpec(idx int, rs RunSpec, emit func(RunRes)) {
 	pr := programs[rs.Prog]
+	if pr.Diamond {
+		runDiamond(idx, rs, emit)
+		return
+	}
 	p := pr.P
 	p.Count = true
 	p.Pragma, p.PragmaPos = rs.Cfg.Pragma, rs.Cfg.PragPos
